@@ -392,9 +392,45 @@ def oracle_duplicate_member_names(ctx):
             fails.append({'signature': 'tar:duplicate-member-path-reads-first-copy' if first_twice else 'container:tar-differs-from-plain',
                           'detail': f'{fname} archive with two members named app.log: rc {r1[0]} vs {r0[0]}; ' + first_diff(r1[1], r0[1]),
                           'args': e2e.BASE_ARGS + ['dup_%s.tar' % fname], 'members': ['app.log', 'app.log']})
+    # F34: a member whose path contains the sub-path separator '|' is listed but cannot be read: the readers split `archive|a|b.log` at the LAST '|'
+    # and try to open `archive|a`. F35: a non-regular entry (a symlink replaced by a file, `tar -r`) under the same path in front of the regular
+    # member: the lookups have no entry-type filter, find the empty symlink entry first, and the member prints nothing.
+    body = b''.join(b'2024-01-03 00:00:%02d member line %d\n' % (i, i) for i in range(4))
+    pp = os.path.join(base, 'pm', 'm.log')
+    os.makedirs(os.path.dirname(pp), exist_ok=True)
+    open(pp, 'wb').write(body)
+    r0 = e2e.s4(e2e.BASE_ARGS + [pp], timeout=120)[:2]
+    tsep = os.path.join(base, 'sep.tar')
+    with tarfile.open(tsep, 'w', format=tarfile.USTAR_FORMAT) as tf:
+        ti = tarfile.TarInfo('a|b.log')
+        ti.size = len(body)
+        ti.mtime = 1700000000
+        tf.addfile(ti, io.BytesIO(body))
+    r1 = run(tsep)[:2]
+    ev += 2
+    if r0 != r1:
+        fails.append({'signature': 'tar:member-path-contains-separator' if not r1[1] else 'container:tar-differs-from-plain',
+                      'detail': f"member 'a|b.log': rc {r1[0]} vs {r0[0]}; " + first_diff(r1[1], r0[1]), 'args': e2e.BASE_ARGS + ['sep.tar'], 'members': ['a|b.log']})
+    tsym = os.path.join(base, 'sym.tar')
+    with tarfile.open(tsym, 'w', format=tarfile.USTAR_FORMAT) as tf:
+        ti = tarfile.TarInfo('m.log')
+        ti.type = tarfile.SYMTYPE
+        ti.linkname = 'elsewhere.log'
+        ti.mtime = 1700000000
+        tf.addfile(ti)
+        ti = tarfile.TarInfo('m.log')
+        ti.size = len(body)
+        ti.mtime = 1700000000
+        tf.addfile(ti, io.BytesIO(body))
+    r2 = run(tsym)[:2]
+    ev += 1
+    if r0 != r2:
+        fails.append({'signature': 'tar:same-named-non-regular-entry-shadows-member' if not r2[1] else 'container:tar-differs-from-plain',
+                      'detail': f"symlink entry 'm.log' before the regular member 'm.log': rc {r2[0]} vs {r0[0]}; " + first_diff(r2[1], r0[1]),
+                      'args': e2e.BASE_ARGS + ['sym.tar'], 'members': ['m.log (symlink)', 'm.log']})
     shutil.rmtree(base, ignore_errors=True)
     return {'evaluations': ev, 'distinct_nontrivial': ev, 'failures': fails, 'samples': [],
-            'rule': 'witness of known finding F33 (two members under one path, ustar and gnu) replayed on the binary: stdout == the two copies as plain files'}
+            'rule': 'witnesses of known findings F33 (two members under one path, ustar and gnu), F34 (member path containing the separator) and F35 (same-named symlink entry in front) replayed on the binary: stdout == the members as plain files'}
 
 
 def oracle_tar_member_names(ctx):
